@@ -254,8 +254,98 @@ def rule_widths(model):
     return r
 
 
+def rule_scanner_twins(model):
+    r = RuleResult('C07.R6', 'the SGML scanner finds the end of an open tag '
+                   '(<dtml-x ...>) and of a close tag (</dtml-x ...>) the '
+                   'same way (quote-aware)')
+    from ..linear import canon
+    sc = model.func('DT_HTML', 'dtml_re_class.search')
+    branches = {}
+    for n in own_nodes(sc.node):
+        if isinstance(n, ast.If) and isinstance(n.test, ast.Compare) and \
+                isinstance(n.test.comparators[0], ast.Constant) and \
+                n.test.comparators[0].value in ('<dtml-', '</dtml-'):
+            branches[n.test.comparators[0].value] = n.body
+    if set(branches) != {'<dtml-', '</dtml-'}:
+        raise AnalysisError('scanner: dtml open/close branches not found')
+
+    def core(stmts):
+        out = []
+        for st in stmts:
+            s_ = norm(st)
+            # prefix width and the end marker legitimately differ
+            if s_.startswith('e = n = s +') or s_.startswith('end ='):
+                continue
+            out.append(st)
+        return out
+    a, b = core(branches['<dtml-']), core(branches['</dtml-'])
+    r.instance(sc.where, ' ; '.join(norm(x) for x in a)[:150], 'open')
+    r.instance(sc.where, ' ; '.join(norm(x) for x in b)[:150], 'close')
+    if canon(a) != canon(b):
+        r.finding(sc.where, 'open/close tag delimiting', 'the open-tag and '
+                  'the close-tag branch of the scanner delimit the tag '
+                  'differently (e.g. only one of them skips ">" inside '
+                  'quoted attribute values): the same template compiles '
+                  'differently in the dtml syntax than in the others',
+                  node=sc.node, ctx=sc)
+    # both must be quote aware
+    for k, stmts in branches.items():
+        src = ' '.join(norm(x) for x in stmts)
+        if "split('\"')" not in src:
+            r.finding(sc.where, f'{k} branch', 'the end of the tag is '
+                      'searched without regard to quoted attribute values',
+                      node=sc.node, ctx=sc)
+    return r
+
+
+# tags every syntax must recognise as ONE tag: a name, then blank-separated
+# attributes -- bare words, name=value, name="quoted value" (any number of
+# them) -- and a format / block marker
+EPFS_MUST_ACCEPT = (
+    r'%\([a-z]+( +[a-z_]+(=([a-z0-9]+|"[^"]*"))?| +"[^"]*")*\)[a-z\[\]]')
+
+
+EPFS_NAMED_ATTRS = (
+    r'%\([a-z]+( +[a-z_]+(=([a-z0-9]+|"[^"]*"))?)*\)[a-z\[\]]')
+
+
+def rule_epfs_language(model):
+    r = RuleResult('C07.R7', 'the EPFS tag pattern recognises every tag of '
+                   'the common attribute grammar (any number of bare, '
+                   'name=value and name="quoted" attributes) as one tag')
+    from .. import regexa
+    import re
+    tg = model.func('DT_String', 'String.tagre')
+    pat = flags = None
+    for c in own_nodes(tg.node):
+        if isinstance(c, ast.Call) and norm(c.func) == 're.compile':
+            ok, pat = model.fold(c.args[0], tg)
+            flags = 0
+            for a in c.args[1:]:
+                for x in ast.walk(a):
+                    if isinstance(x, ast.Attribute) and x.attr.isupper() \
+                            and hasattr(re, x.attr):
+                        flags |= int(getattr(re, x.attr))
+    if pat is None:
+        raise AnalysisError('String.tagre pattern not found')
+    for label, ref in (
+            ('named attributes', EPFS_NAMED_ATTRS),
+            ('"..." shorthand as a bare argument', EPFS_MUST_ACCEPT)):
+        inc, wit = regexa.included(ref, pat, 0, flags)
+        r.instance(tg.where, f'{label}: ' + repr(pat)[:100],
+                   'accepted' if inc else f'rejects {wit!r}')
+        if not inc:
+            r.finding(tg.where, f'EPFS tag language: {label}', f'the EPFS '
+                      f'pattern does not match {wit!r} as a whole tag: a '
+                      'template using such attributes compiles in the SGML '
+                      'syntaxes but is literal text (or a different tag) in '
+                      'the EPFS syntax', node=tg.node, ctx=tg)
+            break
+    return r
+
+
 RULES = [rule_overrides, rule_siblings, rule_groups, rule_entity,
-         rule_widths]
+         rule_widths, rule_scanner_twins, rule_epfs_language]
 EXPLANATION = (
     'Override-set query on the template class hierarchy; comparison of the '
     'normalised decisions (returns, raises, tests) of the two parseTag '
